@@ -169,9 +169,15 @@ TABLE = {
              "generator<int>/generator<int,int>, each path in two consumer implementations (plain code with per-access coroutines, and one "
              "consumer coroutine with a real range-for), comparing after every public call the consumer's observations, the arguments the body "
              "received, RAII and parameter counters, futures' states and the private hand-over record. Blocking accesses on a body awaiting a "
-             "pending operation run on real threads under the controlled scheduler, with the awaited operation completed by another thread.",
+             "pending operation run on real threads under the controlled scheduler, with the awaited operation completed by another thread. "
+             "All histories run with tracked, copyable, non-trivial payload types (content, moved-from flag, copy/move/live counters) for both the "
+             "yielded value and the argument, and with bodies that mix co_yield temporary, co_yield variable (which the body keeps extending) and "
+             "co_yield std::move(variable); the projection compares after every access, in every access form, the content the consumer saw, the "
+             "agreement of the future result with gen.value(), the number of copies made (exactly one per call-style item and per it++, none of "
+             "the argument), and the content and moved-from flag of the body's own variable. The specification states that the library never "
+             "moves from a yielded object (PayloadIntact); the pre-97856c3 post-increment is kept as a specification self-test that TLC must reject.",
         note="bounds: quick body<=4 steps and <=4 accesses (full edge cover, 49k paths x 2 modes); thorough body<=5-6 and <=5-6 accesses (281k paths, "
-             "ASan/UBSan) plus TLC-only runs (2.0M states); int values, lvalue arguments, <=2 accesses after an exception, two thread release orders "
+             "ASan/UBSan) plus TLC-only runs (2.0M states); tracked copyable payloads (move-only payloads not exercised), lvalue arguments, <=2 accesses after an exception, two thread release orders "
              "only; TCB: TLC, vsched, the replayer's projection and private-member access, the linear path cover in tools/checks/c13.py",
         design_ref="6/C13, 3.9"),
     "C12": dict(
